@@ -195,6 +195,9 @@ def getitem(base: T, idx: T) -> T:
         i = idx.args[0]
         if -len(base.args) <= i < len(base.args):
             return base.args[i]
+    if base.op == "binop" and base.args[0] == "+" and idx.op == "const" and idx.args[0] == -1 and \
+            isinstance(base.args[2], T) and base.args[2].op == "list" and base.args[2].args:
+        return base.args[2].args[-1]            # (L + [a, b])[-1] == b
     if base.op == "binop" and base.args[0] in ("-", "/") and idx.op == "const" and isinstance(idx.args[0], int):
         # (A - c)[i] == A[i] - c  for a numeric literal c (elementwise on arrays; '-' and '/' do not exist for lists)
         a_, c_ = base.args[1], base.args[2]
@@ -601,6 +604,23 @@ class Evaluator:
                 fr.env.vars[c.func.value.id] = new
                 self.emit(fr, "assign", st.lineno, (c.func.value.id, new, True))
                 return
+        # D.setdefault(k, []).append(e)  is  D[k] = D.get(k, []) + [e]   (the form the repository writes out)
+        if isinstance(c, ast.Call) and isinstance(c.func, ast.Attribute) and c.func.attr == "append" and len(c.args) == 1 \
+                and not c.keywords and isinstance(c.func.value, ast.Call) and isinstance(c.func.value.func, ast.Attribute) \
+                and c.func.value.func.attr == "setdefault" and isinstance(c.func.value.func.value, ast.Name) \
+                and len(c.func.value.args) == 2 and isinstance(c.func.value.args[1], ast.List) and not c.func.value.args[1].elts:
+            import copy
+            d_name = c.func.value.func.value
+            k_node, dflt = c.func.value.args
+            tgt = ast.Subscript(value=ast.Name(id=d_name.id, ctx=ast.Load()), slice=copy.deepcopy(k_node), ctx=ast.Store())
+            getc = ast.Call(func=ast.Attribute(value=ast.Name(id=d_name.id, ctx=ast.Load()), attr="get", ctx=ast.Load()),
+                            args=[copy.deepcopy(k_node), copy.deepcopy(dflt)], keywords=[])
+            val = ast.BinOp(left=getc, op=ast.Add(), right=ast.List(elts=[c.args[0]], ctx=ast.Load()))
+            new_st = ast.Assign(targets=[tgt], value=val)
+            ast.copy_location(new_st, st)
+            ast.fix_missing_locations(new_st)
+            self.st_Assign(fr, new_st)
+            return
         v = self.eval(fr, st.value)
         self.emit(fr, "expr", st.lineno, v)
 
